@@ -1,7 +1,9 @@
 import Tmv.Model.StateProvider
+import Tmv.Model.StatesyncReactor
 import Tmv.Lemmas.StateSyncQueue
 import Tmv.Lemmas.StateSyncPool
 import Tmv.Lemmas.StateSyncTrace
+import Tmv.Lemmas.StateSyncLight
 /-! # C14 — State sync bootstraps only to light-verified state that the app reproduces
 Property theorems only (helper lemmas: `Tmv/Lemmas/StateSync*.lean`). Quantification: every
 theorem about the syncer holds for every state-provider `env`, every application script (verdict
@@ -252,6 +254,7 @@ theorem verifyApp_ok {snap : Snapshot} {trusted : Bytes} {ver : Nat} {v : InfoV}
           have e2 : hash = trusted := by simpa using h2
           have e3 : toU64 height = snap.height := by simpa using h3
           exact ⟨height, by rw [e1, e2], e3⟩
+  · cases h
 
 /-- **state_only_from_provider / returned_only_if_app_matches** for one `Sync`: a successful
 restore returns exactly the state and commit the state provider gave for the snapshot's height,
@@ -462,6 +465,7 @@ theorem syncAny_ext (choose : Pool → Option Snapshot)
               obtain ⟨c, _, mono, b1, b2⟩ := foldl_rejectPeer (ps := sy2.pool.getPeers snap) hc2
               exact ⟨c, by simpa [b1] using hK2, by simpa [b2] using hF2, fun p hp => mono p (hP2 p hp)⟩
             exact c2.toA.trans ((ExtA.pool (env := env) _ none hrp).trans (ih _ _ _ hrp (by intro s hs'; cases hs')))
+          · exact c2.toA.trans ((ExtA.pool (env := env) _ none hrej).trans (ih _ _ _ hrej (by intro s hs'; cases hs')))
           all_goals exact c2.toA.trans (ExtA.pool (env := env) sy2.pool _ (by exact c2.1))
 
 
@@ -560,6 +564,109 @@ theorem applied_chunk_is_next (env : Env) {sy : Sy} (sc : Script) (hc : Clean sy
       obtain ⟨_, _, _, l, hl, _⟩ := ((a2.trans ar).trans a3).trans a4
       exact ⟨s, body, l, hs, hlt, hr, hmin, hf, hsd, by rw [hl]; simp [log, hbody]⟩
 
+/-! ## the reactor's Receive -/
+
+/-- **what reaches the syncer through `Receive` is well-formed**: a snapshot handed to
+`AddSnapshot` comes from the peer that sent it, on the snapshot channel, while a sync is attached,
+and has height > 0, a non-empty hash and at least one chunk (so `newChunkQueue` cannot fail for
+it); a chunk handed to `AddChunk` carries the sending peer as its sender, came on the chunk
+channel, has height > 0 and — unless the peer flagged it missing — non-empty bytes. -/
+theorem receive_to_syncer_wellformed (recent : Nat) (app : ServeApp) (syncing : Bool) (chan : Nat)
+    (peer : String) (m : WireMsg) :
+    (∀ p s, receive recent app syncing chan peer m = .addSnapshot p s →
+      p = peer ∧ syncing = true ∧ chan = snapshotChannel ∧ m = .snapshotsResponse s ∧
+      0 < s.height ∧ s.hash ≠ [] ∧ 0 < s.chunks ∧ (Queue.new s).isSome = true) ∧
+    (∀ c, receive recent app syncing chan peer m = .addChunk c →
+      c.sender = peer ∧ syncing = true ∧ chan = chunkChannel ∧ 0 < c.height ∧
+      ∃ missing, m = .chunkResponse c.height c.format c.index c.body missing ∧
+        (missing = false → ∃ b, c.body = some b)) := by
+  constructor
+  · intro p s h
+    unfold receive at h
+    split at h; · cases h
+    rename_i hv
+    split at h
+    · rename_i hc
+      split at h
+      · cases h
+      · split at h
+        · rename_i hs
+          injection h with h1 h2
+          subst h1 h2
+          simp only [validateMsg, Bool.not_eq_true, Bool.not_eq_false] at hv
+          simp at hv
+          obtain ⟨⟨h1, h2⟩, h3⟩ := hv
+          refine ⟨rfl, hs, hc, rfl, by omega, ?_, by omega, ?_⟩
+          · intro he; rw [he] at h2; simp at h2
+          · simp [Queue.new]; omega
+        · cases h
+      · cases h
+    · split at h
+      · split at h
+        · cases h
+        · split at h <;> cases h
+        · cases h
+      · cases h
+  · intro c h
+    unfold receive at h
+    split at h; · cases h
+    rename_i hv
+    split at h
+    · split at h
+      · cases h
+      · split at h <;> cases h
+      · cases h
+    · split at h
+      · rename_i hc
+        split at h
+        · cases h
+        · rename_i hh f i cb mi
+          split at h
+          · rename_i hs
+            injection h with h
+            subst h
+            simp [validateMsg] at hv
+            obtain ⟨⟨h1, _⟩, h3⟩ := hv
+            refine ⟨rfl, hs, hc, by simp; omega, mi, rfl, ?_⟩
+            intro hm
+            subst hm
+            simp at h3
+            cases cb with
+            | none => simp at h3
+            | some b => exact ⟨b, rfl⟩
+          · cases h
+        · cases h
+      · cases h
+
+/-- an invalid message only ever stops the peer; without an attached syncer nothing reaches one;
+at most `recent` snapshots are advertised, all of them the application's -/
+theorem receive_decisions (recent : Nat) (app : ServeApp) (syncing : Bool) (chan : Nat) (peer : String) (m : WireMsg) :
+    (validateMsg m = false → receive recent app syncing chan peer m = .stopPeer) ∧
+    (syncing = false → (∀ p s, receive recent app syncing chan peer m ≠ .addSnapshot p s) ∧
+      (∀ c, receive recent app syncing chan peer m ≠ .addChunk c)) ∧
+    (recentSnapshots recent app).length ≤ recent := by
+  refine ⟨?_, ?_, ?_⟩
+  · intro h; simp [receive, h]
+  · intro hs
+    have h1 := receive_to_syncer_wellformed recent app syncing chan peer m
+    constructor
+    · intro p s he; have := (h1.1 p s he).2.1; rw [hs] at this; cases this
+    · intro c he; have := (h1.2 c he).2.1; rw [hs] at this; cases this
+  · simp [recentSnapshots, List.length_take]; omega
+
+/-- KNOWN FINDING (`syncer.SyncAny.reject-sender-misses-peer-removed-before-verdict`): the senders
+rejected for an offer answered REJECT_SENDER are the peers the pool lists when the verdict is
+processed; a peer removed in between (stopped for an invalid message, or disconnected) escapes the
+blacklist. Model witness: the only advertiser is stopped during the offer, the verdict rejects
+nobody, and the pool accepts the same peer's next advertisement. -/
+theorem reject_sender_misses_removed_peer :
+    let s : Snapshot := { height := 4, format := 2, chunks := 3, hash := [0xaa], metadata := [] }
+    let p0 := (Pool.empty.add 10 "p3" s).1
+    let p1 := p0.removePeer "p3"                                   -- `stop:p3` while the app handles the offer
+    let p2 := (p1.getPeers s).foldl Pool.rejectPeer p1             -- SyncAny on errRejectSender
+    p2.blPeer = [] ∧ (p2.add 10 "p3" s).2 = true := by
+  decide
+
 /-! ## light-client state provider -/
 
 theorem reErr_ne_ok {α β : Type} (e : ProvRes α) (x : β) : (reErr e : ProvRes β) ≠ .ok x := by
@@ -603,7 +710,7 @@ theorem provider_answers_from_verified_blocks (lc : Nat → ProvRes LightBlock) 
       ∃ resp, rpc b1.height = .ok resp ∧ resp.params = st.params) := by
   refine ⟨?_, ?_, ?_⟩
   · intro x hx
-    unfold lcAppHash at hx
+    unfold lcAppHash assembleAppHash at hx
     split at hx
     · rename_i b hb
       split at hx
@@ -613,12 +720,12 @@ theorem provider_answers_from_verified_blocks (lc : Nat → ProvRes LightBlock) 
       · exact absurd hx (reErr_ne_ok _ _)
     · exact absurd hx (reErr_ne_ok _ _)
   · intro c hc
-    unfold lcCommit at hc
+    unfold lcCommit assembleCommit at hc
     split at hc
     · rename_i b hb; injection hc with hc; exact ⟨b, hb, hc.symm⟩
     · exact absurd hc (reErr_ne_ok _ _)
   · intro st hst
-    unfold lcState at hst
+    unfold lcState assembleState at hst
     split at hst
     · rename_i b0 h0
       split at hst
@@ -653,6 +760,147 @@ theorem consensus_params_determined_by_header_fails :
   let p' : Params := { p with evAgeBlocks := 1, appVersion := 7 }
   have h := hall 104857600 5 (100, -1) ⟨5, p⟩ ⟨5, p'⟩ p p' rfl rfl
   exact absurd h (by decide)
+
+/-! ## the provider over C09's light client -/
+
+/-- **bootstrapped_state_is_light_verified**: with `VerifyLightBlockAtHeight` instantiated by C09's
+light-client model (C07's commit verification composed in), on ANY client state satisfying C09's
+invariant — in particular the state after `NewClient` with trust root `root` and any sequence of
+calls (`Props.C09.stored_reachable_session`) — for every behaviour of the primary, the witnesses
+and the RPC server, every arrival order of witness replies and every clock:
+if `AppHash`, `State` and `Commit` (the calls of `Sync`, in its order, on the one light client)
+all succeed, then the app hash offered to the application, the state's `LastBlockID`, its three
+validator sets, its app hash and results hash, the hashed part of its consensus parameters, and
+the commit are those of light blocks REACHABLE from the trust root by steps the verifier accepted
+(C09's `Reach`), and the client still satisfies the invariant. -/
+theorem bootstrapped_state_is_light_verified (v : LightView) (maxBlock : Int) (rpc : Nat → ProvRes ParamsResp)
+    (ih : Nat) (eA eS eC : CallEnv) {cfg : Light.Config} {root : Light.Hash → Prop} {c c1 c2 c3 : Light.Client}
+    (hinv : Light.Inv cfg root c) (h : Nat) {ah : Bytes} {st : LcState} {cm : LcCommit}
+    (hA : lightAppHash v eA c h = (c1, .ok ah))
+    (hS : lightState v maxBlock rpc ih eS c1 h = (c2, .ok st))
+    (hC : lightCommit v eC c2 h = (c3, .ok cm)) :
+    (∃ b1, Light.Reach cfg root b1 ∧ ah = v.enc b1.hdr.appHash) ∧
+    (∃ b0 b1 b2, Light.Reach cfg root b0 ∧ Light.Reach cfg root b1 ∧ Light.Reach cfg root b2 ∧
+      st.lastBlockID = v.enc b0.hash ∧ st.lastValidators = v.enc b0.vals.hash ∧
+      st.appHash = v.enc b1.hdr.appHash ∧ st.validators = v.enc b1.vals.hash ∧
+      st.lastResults = v.enc b1.hdr.resHash ∧ st.appVersion = v.hdrApp b1.hash ∧
+      st.params.hashed = v.hdrCons b1.hash ∧ st.nextValidators = v.enc b2.vals.hash) ∧
+    (∃ b, Light.Reach cfg root b ∧ cm.blockHash = v.enc b.hash) ∧
+    Light.Inv cfg root c3 := by
+  -- AppHash
+  have hA1 := vlb_spec (cfg := cfg) (root := root) (eA.sched 0) (h + 1) (eA.now 0) hinv
+  have partA : (∃ b1, Light.Reach cfg root b1 ∧ ah = v.enc b1.hdr.appHash) ∧ Light.Inv cfg root c1 := by
+    unfold lightAppHash at hA
+    cases hv1 : vlb c (eA.sched 0) (h + 1) (eA.now 0) with
+    | mk ca r1 =>
+      rw [hv1] at hA hA1
+      cases r1 with
+      | ok b1 =>
+        simp only at hA
+        have hA2 := vlb_spec (cfg := cfg) (root := root) (eA.sched 1) (h + 2) (eA.now 1) hA1.1
+        cases hv2 : vlb ca (eA.sched 1) (h + 2) (eA.now 1) with
+        | mk cb r2 =>
+          rw [hv2] at hA hA2
+          simp only at hA
+          obtain ⟨e1, e2⟩ := Prod.mk.inj hA
+          subst e1
+          refine ⟨⟨b1, hA1.2 b1 rfl, ?_⟩, hA2.1⟩
+          unfold assembleAppHash at e2
+          simp only at e2
+          split at e2
+          · injection e2 with e2; exact e2.symm
+          · exact absurd e2 (reErr_ne_ok _ _)
+      | error er =>
+        simp only at hA
+        obtain ⟨_, e2⟩ := Prod.mk.inj hA
+        unfold assembleAppHash at e2
+        split at e2
+        · rename_i hb; cases er <;> simp [LightView.res] at hb
+        · exact absurd e2 (reErr_ne_ok _ _)
+  obtain ⟨pa, hi1⟩ := partA
+  -- State
+  have partS : (∃ b0 b1 b2, Light.Reach cfg root b0 ∧ Light.Reach cfg root b1 ∧ Light.Reach cfg root b2 ∧
+      st.lastBlockID = v.enc b0.hash ∧ st.lastValidators = v.enc b0.vals.hash ∧
+      st.appHash = v.enc b1.hdr.appHash ∧ st.validators = v.enc b1.vals.hash ∧
+      st.lastResults = v.enc b1.hdr.resHash ∧ st.appVersion = v.hdrApp b1.hash ∧
+      st.params.hashed = v.hdrCons b1.hash ∧ st.nextValidators = v.enc b2.vals.hash) ∧ Light.Inv cfg root c2 := by
+    unfold lightState at hS
+    have s0 := vlb_spec (cfg := cfg) (root := root) (eS.sched 0) h (eS.now 0) hi1
+    cases hv0 : vlb c1 (eS.sched 0) h (eS.now 0) with
+    | mk ca r0 =>
+      rw [hv0] at hS s0
+      cases r0 with
+      | error er =>
+        simp only at hS
+        obtain ⟨_, e2⟩ := Prod.mk.inj hS
+        unfold assembleState at e2
+        split at e2
+        · rename_i hb; cases er <;> simp [LightView.res] at hb
+        · exact absurd e2 (reErr_ne_ok _ _)
+      | ok b0 =>
+        simp only at hS
+        have s1 := vlb_spec (cfg := cfg) (root := root) (eS.sched 1) (h + 1) (eS.now 1) s0.1
+        cases hv1 : vlb ca (eS.sched 1) (h + 1) (eS.now 1) with
+        | mk cb r1 =>
+          rw [hv1] at hS s1
+          cases r1 with
+          | error er =>
+            simp only at hS
+            obtain ⟨_, e2⟩ := Prod.mk.inj hS
+            unfold assembleState at e2
+            simp only at e2
+            split at e2
+            · rename_i hb; cases er <;> simp [LightView.res] at hb
+            · exact absurd e2 (reErr_ne_ok _ _)
+          | ok b1 =>
+            simp only at hS
+            have s2 := vlb_spec (cfg := cfg) (root := root) (eS.sched 2) (h + 2) (eS.now 2) s1.1
+            cases hv2 : vlb cb (eS.sched 2) (h + 2) (eS.now 2) with
+            | mk cc r2 =>
+              rw [hv2] at hS s2
+              simp only at hS
+              obtain ⟨e1, e2⟩ := Prod.mk.inj hS
+              subst e1
+              refine ⟨?_, s2.1⟩
+              unfold assembleState at e2
+              simp only at e2
+              split at e2
+              · rename_i nb hnb
+                obtain ⟨b2, hr2, rfl⟩ := res_ok hnb
+                split at e2
+                · rename_i p hp
+                  obtain ⟨_, _, _, _, hh, _⟩ := checkParams_ok hp
+                  injection e2 with e2
+                  subst e2
+                  exact ⟨b0, b1, b2, s0.2 b0 rfl, s1.2 b1 rfl, s2.2 b2 hr2, rfl, rfl, rfl, rfl, rfl, rfl, hh, rfl⟩
+                · exact absurd e2 (reErr_ne_ok _ _)
+              · exact absurd e2 (reErr_ne_ok _ _)
+  obtain ⟨ps, hi2⟩ := partS
+  -- Commit
+  unfold lightCommit at hC
+  have k0 := vlb_spec (cfg := cfg) (root := root) (eC.sched 0) h (eC.now 0) hi2
+  cases hvc : vlb c2 (eC.sched 0) h (eC.now 0) with
+  | mk ca r0 =>
+    rw [hvc] at hC k0
+    simp only at hC
+    obtain ⟨e1, e2⟩ := Prod.mk.inj hC
+    subst e1
+    refine ⟨pa, ps, ?_, k0.1⟩
+    unfold assembleCommit at e2
+    split at e2
+    · rename_i b hb
+      obtain ⟨l, hl, rfl⟩ := res_ok hb
+      injection e2 with e2
+      subst e2
+      exact ⟨l, k0.2 l hl, rfl⟩
+    · exact absurd e2 (reErr_ne_ok _ _)
+
+/-- the hypothesis `Light.Inv` of the theorem above is what C09 establishes for a freshly created
+client (trust root given by hash) -/
+theorem light_inv_after_newClient {cfg : Light.Config} {primary : Light.Prov} {witnesses : List Light.Prov}
+    {sched : List Light.Prov → List Nat} {period height : Int} {root : Light.Hash} {c0 : Light.Client}
+    (hnew : Light.newClient cfg primary witnesses sched period height root = .ok c0) :
+    Light.Inv cfg (· = root) c0 := Light.newClient_inv hnew
 
 /-! ## what the node does with the answers (`startStateSync`: `SaveSeenCommit`, `Bootstrap`) -/
 
@@ -780,4 +1028,76 @@ example : ∃ st c, Restored exLc 104857600 exRpc 1 2 st c ∧ st.validators ≠
   split at hk
   · injection hk with hk; subst hk; rfl
   · cases hk
+
+/-! non-vacuity of `bootstrapped_state_is_light_verified`: a concrete chain and honest providers
+(the example chain of Props/C09.lean, copied), snapshot height 1, trust root = block 1 -/
+namespace ExLight
+open Tmv.Light
+
+def V : ValSet := { vals := [(0, 1), (1, 1), (2, 1)], hash := 1 }
+def hdr (h t : Int) (app hash last : Nat) : Header := {
+  chain := 0, height := h, time := t, valsHash := 1, nextValsHash := 1
+  lastBlockHash := last, appHash := app, consHash := 0, resHash := 0, basicOK := true, hash := hash }
+/-- signature tokens: 1 = valid for the slot's validator over this commit, anything else invalid -/
+def sigOK : SigOK := fun _ _ s => s == 1
+def bid (hash : Nat) : CommitVerify.BlockID :=
+  { hash := List.replicate 32 (UInt8.ofNat hash), total := 1, psHash := List.replicate 32 1 }
+/-- a commit in which exactly the validators `signers` (ids 0..2, in set order) signed for the block -/
+def mkCommit (h : Int) (hash : Nat) (signers : List Nat) : CommitVerify.Commit Nat :=
+  { height := h, round := 0, blockID := bid hash,
+    sigs := [0, 1, 2].map fun id =>
+      if signers.contains id then { flag := 2, addr := [UInt8.ofNat id], ts := 7, sig := 1 }
+      else { flag := 1, addr := [], ts := 0, sig := 0 } }
+def blk (h t : Int) (app hash last : Nat) (signers : List Nat) : Light.LightBlock :=
+  { hdr := hdr h t app hash last, commitOK := true, commit := mkCommit h hash signers, vals := V }
+def b1 := blk 1 10 0 1 0 [0, 1, 2]
+def b2 := blk 2 20 0 2 1 [0, 1, 2]
+def b3 := blk 3 30 0 3 2 [0, 1, 2]
+def b4 := blk 4 40 0 4 3 [0, 1]        -- signed by 2/3 only: not enough
+def f3 := blk 3 30 1 5 2 [0, 1, 2]     -- equivocation at height 3
+def table (l : List Light.LightBlock) : Nat → Int → Resp := fun _ h =>
+  match l.find? (fun b => b.height == (if h = 0 then 3 else h)) with
+  | some b => .ok b
+  | none => .err .notFound
+def honest (id : Nat) : Prov := { id := id, chain := 0, script := table [b1, b2, b3] }
+def liar (id : Nat) : Prov := { id := id, chain := 0, script := table [b1, b2, f3] }
+def silent (id : Nat) : Prov := { id := id, chain := 0, script := fun _ _ => .err .noResponse }
+def cfg : Config := {
+  chain := 0, period := 1000, sequential := false, level := ⟨1, 3⟩, drift := 1
+  pruning := 0, fuel := 30, sigOK := sigOK }
+def fifo : List Prov → List Nat := fun ws => List.range ws.length
+
+instance : Inhabited Client := ⟨{
+  cfg := cfg, primary := default, witnesses := [], calls := (fun _ => 0)
+  store := default, latest := none, evidence := [], sched := fifo }⟩
+
+def start (primary : Prov) (ws : List Prov) : Client :=
+  match newClient cfg primary ws fifo 1000 1 1 with
+  | .ok c => c
+  | .error _ => default
+
+def errOf {α : Type} : Except Err α → Option Err
+  | .error e => some e
+  | .ok _ => none
+
+end ExLight
+open ExLight in
+def exView : LightView := { enc := fun n => [UInt8.ofNat n], hdrApp := fun _ => 0, hdrCons := fun _ => (100, -1) }
+open ExLight in
+def exCall : CallEnv := { now := fun _ => 35, sched := fun _ => fifo }
+
+def okOf {α : Type} : ProvRes α → Option α
+  | .ok a => some a
+  | _ => none
+
+open ExLight in
+/-- the three provider calls succeed on a concrete client, with non-trivial answers -/
+example :
+    let c := start (honest 1) [honest 2]
+    let a := lightAppHash exView exCall c 1
+    let s := lightState exView 104857600 exRpc 1 exCall a.1 1
+    let k := lightCommit exView exCall s.1 1
+    okOf a.2 = some [0] ∧ (okOf s.2).map (fun st => (st.lastBlockID, st.lastBlockHeight)) = some ([1], 1) ∧
+    (okOf k.2).map (·.blockHash) = some [1] := by
+  decide
 end Tmv.Props.C14
